@@ -12,8 +12,8 @@ from .. import common
 from ..engine_bfs import Search, canon
 from ..engine_enum import Acc, run_shards
 from ..evidence import Report
-from .parser_common import (ALPHA9, INVALID_ITEMS, hexs, msg_sig,
-                            reject_probe, sigs)
+from .parser_common import (ALPHA9, INVALID_ITEMS, hexs, long_streams,
+                            msg_sig, reject_probe, sigs)
 
 PROP = 'C05'
 FORMS = ('list', 'bytes', 'generator', 'feed_byte', 'tuple', 'bytearray')
@@ -117,6 +117,51 @@ def check_chunkings(mido, data, acc, full_forms, rot):
 def worker(shard):
     mido = common.import_mido()
     acc = Acc()
+    if shard[0] == 'long':
+        # many messages in one call / across calls: FIFO, pending(), chunking
+        for data, label in long_streams(mido):
+            acc.evals += 1
+            acc.nontrivial += 1
+            case = {'kind': 'long', 'label': label}
+            try:
+                want = sigs(mido.parse_all(list(data)))
+                for form in ('list', 'bytes'):
+                    for chunk in (len(data) or 1, 1, 2, 3, 7, 64, 1000):
+                        p = mido.Parser()
+                        for i in range(0, len(data), chunk):
+                            feed_chunk(p, data[i:i + chunk], form)
+                        n = p.pending()
+                        if n != len(want) or len(p) != len(want):
+                            acc.violation('long/pending',
+                                          f'{label}, chunks of {chunk} ({form})'
+                                          f': pending() = {n}, len = {len(p)}, '
+                                          f'but {len(want)} messages can be '
+                                          f'retrieved', case)
+                            break
+                        got = []
+                        while True:
+                            m = p.get_message()
+                            if m is None:
+                                break
+                            got.append(m)
+                            if p.pending() != len(want) - len(got):
+                                acc.violation('long/pending-during-retrieval',
+                                              f'{label}: after {len(got)} '
+                                              f'retrievals pending() = '
+                                              f'{p.pending()}', case)
+                                break
+                        if sigs(got) != want:
+                            acc.violation('long/chunking-changes-result',
+                                          f'{label}, chunks of {chunk} ({form})'
+                                          f': {len(got)} messages, one-shot '
+                                          f'{len(want)}', case)
+                            break
+            except Exception as e:
+                acc.violation(f'long/raised/{type(e).__name__}',
+                              f'{label}: {e!r}', case)
+        acc.sample({'long_streams': 'up to 2030 messages / 65536-byte sysex'},
+                   cap=1)
+        return acc
     if shard[0] == 'reject':
         first = shard[1]
         for k in range(0, 4):
@@ -327,6 +372,7 @@ def run():
     shards = [(None, N, FULL, seed)]
     shards += [((a, b), N, FULL, seed) for a in ALPHA9 for b in ALPHA9]
     shards += [('reject', a) for a in ALPHA9]
+    shards.append(('long',))
     run_shards(worker, shards, rep)
     rep.coverage['traces_validated_against_impl'] += rep.coverage['evaluations']
     rep.coverage['exhaustive'] = True
